@@ -1,5 +1,6 @@
 //! A `Subject` is anything `sample()`-able whose result can be judged by a support predicate:
 //! the scalar families plus unit geometry, Dirichlet and the two weighted indices.
+use crate::common::*;
 use crate::fam::*;
 use crate::rng::*;
 use rand_distr::multi::{Dirichlet, MultiDistribution};
@@ -377,14 +378,77 @@ pub fn subject(case: &Case) -> Result<Box<dyn Subject>, String> {
         }
         _ => {}
     }
-    if let Some(wt) = fam.strip_prefix("alias:").or_else(|| fam.strip_prefix("tree:")) {
+    if let Some(wt) = fam.strip_prefix("alias:").or_else(|| fam.strip_prefix("tree:")).or_else(|| fam.strip_prefix("treeh:")) {
         let is_alias = fam.starts_with("alias:");
+        // "treeh": the tree is driven through a deterministic history that mixes accepted operations with operations
+        // that must be rejected (totals beyond MAX); a rejected operation leaves the weights unchanged (rustdoc), so
+        // the model only follows the operations that returned Ok
+        let with_history = fam.starts_with("treeh:");
         macro_rules! w {
             ($A:ident, $T:ident, $W:ty, $cv:expr) => {{
                 let f: fn(P) -> $W = $cv;
                 let ws: Vec<$W> = case.p.iter().map(|&p| f(p)).collect();
                 if is_alias {
                     WeightedAliasIndex::new(ws.clone()).map(|d| Box::new($A(d, ws)) as Box<dyn Subject>).map_err(|e| format!("{e:?}"))
+                } else if with_history {
+                    let mut t = WeightedTreeIndex::new(ws.clone()).map_err(|e| format!("{e:?}"))?;
+                    let mut m = ws.clone();
+                    let zero: $W = Default::default();
+                    let mut g = Xo::new(fnv(0xcbf29ce484222325, case.id.len() as u64 ^ case.p.iter().fold(0u64, |a, p| a.rotate_left(7) ^ p.u())));
+                    let r = guarded(std::panic::AssertUnwindSafe(|| {
+                        for _ in 0..48 {
+                            let n = m.len() as u64;
+                            let pick = |g: &mut Xo, m: &Vec<$W>| -> $W {
+                                match g.below(5) {
+                                    0 => <$W>::MAX,
+                                    1 => <$W>::MAX / (2 as $W),
+                                    2 => zero,
+                                    _ => if m.is_empty() { zero } else { m[g.below(m.len() as u64) as usize] },
+                                }
+                            };
+                            match g.below(8) {
+                                0 | 1 | 2 | 3 if n > 0 => {
+                                    let i = g.below(n) as usize;
+                                    let w = pick(&mut g, &m);
+                                    if t.update(i, w).is_ok() {
+                                        m[i] = w;
+                                    }
+                                }
+                                4 | 5 => {
+                                    let w = pick(&mut g, &m);
+                                    if m.len() < 64 && t.push(w).is_ok() {
+                                        m.push(w);
+                                    }
+                                }
+                                6 if n > 1 => {
+                                    if t.pop().is_some() {
+                                        m.pop();
+                                    }
+                                }
+                                _ => {}
+                            }
+                        }
+                    }));
+                    if !matches!(r, Caught::Ok(())) {
+                        // a panic inside the history is C09's business: fall back to the fresh tree
+                        return WeightedTreeIndex::new(ws.clone()).map(|d| Box::new($T(d, ws)) as Box<dyn Subject>).map_err(|e| format!("{e:?}"));
+                    }
+                    if !t.is_valid() {
+                        // make it sampleable again through an accepted operation
+                        if m.is_empty() {
+                            let _ = t.push(<$W>::MAX / (4 as $W));
+                            m.push(<$W>::MAX / (4 as $W));
+                        } else {
+                            let w = <$W>::MAX / (4 as $W);
+                            if t.update(0, w).is_ok() {
+                                m[0] = w;
+                            }
+                        }
+                    }
+                    if !t.is_valid() {
+                        return WeightedTreeIndex::new(ws.clone()).map(|d| Box::new($T(d, ws)) as Box<dyn Subject>).map_err(|e| format!("{e:?}"));
+                    }
+                    Ok(Box::new($T(t, m)) as Box<dyn Subject>)
                 } else {
                     WeightedTreeIndex::new(ws.clone()).map(|d| Box::new($T(d, ws)) as Box<dyn Subject>).map_err(|e| format!("{e:?}"))
                 }
